@@ -28,13 +28,13 @@ def clientPass' (w : W) (c : Cli) (e : Option FdEnv) (rev : Nat) : W × Option C
   if rev &&& 8 != 0 || rev &&& 16 != 0 then dead w c else
   let (w, c) :=
     if rev &&& 1 != 0 || rev &&& 4 != 0 then
-      match e with
-      | some e =>
+      match clipE c e, clipC c e with
+      | some e, c =>
         if e.rk == 1 then ({ w with sys := w.sys ++ [.read c.fd (-1)] }, { c with quit := true })
         else if e.rk == 2 then ({ w with sys := w.sys ++ [.read c.fd 0] }, { c with quit := true })
         else if e.data.isEmpty then ({ w with sys := w.sys ++ [.read c.fd (-1)] }, { c with quit := true })
         else ({ w with sys := w.sys ++ [.read c.fd e.data.length] }, { c with fromBuf := c.fromBuf ++ e.data })
-      | none => (w, c)
+      | none, c => (w, c)
     else (w, c)
   let (w, c) := if rev &&& 2 != 0 then handleWrite w c else (w, c)
   let (w, c) := handleInput w c
